@@ -34,7 +34,7 @@ ANCHORS = ['Bits.__getitem__', 'ConstBitStream.__getitem__', 'BitStore.getslice_
            'Bits.__len__', 'Bits.__bool__']
 REQUIRED_OPS = ['len', 'bool', 'iter', 'reversed', 'index', 'slice', 'add', 'radd', 'mul', 'rmul', 'alias-probe']
 MIN_EVALS = {'quick': 300000, 'thorough': 4000000}
-ASSUMPTIONS = ['MSB0 mode only (the LSB0 index mirror is judged by C12)',
+ASSUMPTIONS = ['indexing, slicing and iteration in MSB0 mode only (the LSB0 index mirror is judged by C12); + and * are also run with lsb0 on',
                'in-memory objects only: file-backed / length-limited stores are a construction route judged by C08',
                'Python str indexing, slicing, + and * are the trusted definition of the sequence operations',
                'a zero slice step must raise ValueError as it does for every built-in sequence']
@@ -414,8 +414,12 @@ def judge_add(ctx, c):
     lsnap, rsnap = snapshot(left), snapshot(right)
     lpos = left.pos if ls[0] in STREAMS else None
     rpos = right.pos if rs[0] in STREAMS else None
-    got = call(lambda: left + right)
-    key = (ls[0], rs[0], op, lbucket(len(lbits)), 'r>l' if len(rbits) > len(lbits) else 'r<=l')
+    lsb0 = bool(c.get('lsb0'))
+    with util.options(lsb0=lsb0):      # + takes no position: its result is the same in both bit-numbering modes
+        got = call(lambda: left + right)
+    if lsb0:
+        ic += ',lsb0'
+    key = (ls[0], rs[0], op, lbucket(len(lbits)), 'r>l' if len(rbits) > len(lbits) else 'r<=l', lsb0)
     nontrivial = bool(lbits or rbits)
     # the catalogued defect gets its own, narrow failure shape: the result has the *right* operand's class
     if (got[0] == 'ok' and is_bs(ls) and is_bs(rs) and type(got[1]) is not exp_cls
@@ -461,10 +465,13 @@ def judge_mul(ctx, c):
     pos = s.pos if cn in STREAMS else None
     for n in c['ns']:
         ic = mul_class(n) + (',empty' if L == 0 else '')
+        if c.get('lsb0'):
+            ic += ',lsb0'
         for op, f in (('mul', lambda: s * n), ('rmul', lambda: n * s)):
-            got = call(f)
+            with util.options(lsb0=bool(c.get('lsb0'))):
+                got = call(f)
             one = dict(c, ns=[n])
-            key = (cn, lbucket(L), op, mul_class(n), len(c['s']) > 2)
+            key = (cn, lbucket(L), op, mul_class(n), len(c['s']) > 2, bool(c.get('lsb0')))
             if n < 0:
                 check_raises(ctx, one, op, ic, got, 'ValueError', key)
             else:
@@ -606,7 +613,7 @@ def run(ctx):
                     rbits = fit_bits(rng, kb, lb_)
                     right = bs_spec(rng, kb, rbits) if kb in CLASSES else [kb, rbits]
                 c = {'k': 'add', 'left': left, 'right': right, 'lpos': rpos(rng, len(lbits)),
-                     'rpos': rpos(rng, len(right[1])) if kb != 'self' else None}
+                     'rpos': rpos(rng, len(right[1])) if kb != 'self' else None, 'lsb0': i % 4 == 3}
                 ctx.run_case(judge, c)
                 if i % 499 == 0:
                     ctx.sample(short(c))
@@ -624,7 +631,7 @@ def run(ctx):
                     if L > 2000:
                         ns = [n for n in ns if n <= 9] if ctx.quick else ns
                     ns = ns + [rng.randint(2, 70)]
-                    c = {'k': 'mul', 's': bs_spec(rng, cn, bits), 'bits': bits, 'pos': rpos(rng, L), 'ns': ns}
+                    c = {'k': 'mul', 's': bs_spec(rng, cn, bits), 'bits': bits, 'pos': rpos(rng, L), 'ns': ns, 'lsb0': i % 4 == 3}
                     ctx.run_case(judge, c)
                     if i % 41 == 0:
                         ctx.sample(short(c))
